@@ -333,10 +333,11 @@ const (
 	tBadClient
 	tServerPartial
 	tServerCodecOtherCode
+	tClientTwoCodes
 	tCount
 )
 
-var c11TableName = []string{"same", "client-only", "server-only", "disjoint-codes", "same-code-other-type", "client-conversion-fails", "server-knows-only-unrelated-types", "server-lists-codec-types-under-other-codes"}
+var c11TableName = []string{"same", "client-only", "server-only", "disjoint-codes", "same-code-other-type", "client-conversion-fails", "server-knows-only-unrelated-types", "server-lists-codec-types-under-other-codes", "client-knows-each-type-under-a-legacy-and-a-new-code"}
 
 func regAll(e *jsonrpc.Errors, base jsonrpc.ErrorCode) {
 	e.Register(base+1, new(EVal))
@@ -389,6 +390,18 @@ func tables(t int) (srv, cli *jsonrpc.Errors) {
 		s.Register(556, new(*CodecD))
 		s.Register(557, new(*CodecF))
 		regAll(&c, 100)
+		return &s, &c
+	case tClientTwoCodes:
+		// the server still emits the legacy codes; the client's table lists every type under the legacy code
+		// first and under a newer code as well
+		regAll(&s, 100)
+		regAll(&c, 100)
+		c.Register(701, new(EVal))
+		c.Register(702, new(*EPtr))
+		c.Register(703, new(*MPtr))
+		c.Register(704, new(MVal))
+		c.Register(7001, new(*CodecS))
+		c.Register(7002, new(*CodecD))
 		return &s, &c
 	case tBadClient:
 		regAll(&s, 100)
@@ -685,7 +698,7 @@ func clientTypeFor(t int, code int) reflect.Type {
 	base := map[int]reflect.Type{}
 	add := func(c int, v interface{}) { base[c] = reflect.TypeOf(v).Elem() }
 	switch t {
-	case tSame, tClientOnly, tServerPartial, tServerCodecOtherCode:
+	case tSame, tClientOnly, tServerPartial, tServerCodecOtherCode, tClientTwoCodes:
 		add(101, new(EVal))
 		add(102, new(*EPtr))
 		add(103, new(*MPtr))
